@@ -60,13 +60,16 @@ RspSimple(r) ==
 (* ---- C16: C-FIND / worklist provider ---- *)
 RspFind(r) ==
   /\ svc \in {"find", "mwl"} /\ ~over /\ final = 0 /\ Correlated(r)
-  /\ IF Pending(svc, r.status)
-     THEN /\ nrsp < Len(items)                                   \* one response per yielded match, in order
-          /\ r.d = items[nrsp + 1].d /\ r.status = items[nrsp + 1].s     \* its identifier (0: a match without any attribute
-                                                                           \* has an empty encoding - nothing to carry)
-          /\ nrsp' = nrsp + 1 /\ UNCHANGED final
-     ELSE /\ nrsp = Len(items)                                   \* the final response comes after all matches
-          /\ r.d = 0                                             \* and carries no identifier
+  /\ IF nrsp < Len(items)
+     THEN \* one response per item the handler yielded, in order, with its status and identifier (0: an item without
+          \* any attribute has an empty encoding - nothing to carry); a non-pending status supplied by the handler
+          \* itself is the final response of the operation
+          /\ r.d = items[nrsp + 1].d /\ r.status = items[nrsp + 1].s
+          /\ nrsp' = nrsp + 1 /\ final' = (IF Pending(svc, r.status) THEN 0 ELSE 1)
+     ELSE \* everything yielded has been sent: the one final response, without identifier - success, or the documented
+          \* failure status when the handler signalled an error
+          /\ ~Pending(svc, r.status) /\ r.d = 0
+          /\ r.status = (IF handler # <<>> THEN handler[Len(handler)] ELSE 0)
           /\ final' = 1 /\ UNCHANGED nrsp
   /\ UNCHANGED <<svc, req, handler, items, nsub, ngot, over>>
 
@@ -102,7 +105,10 @@ RspMove(r, total) ==
           /\ r.rem = total - nrsp'                               \* after k sub-operations: total - k remaining
           /\ (r.comp = nrsp' \/ r.comp + r.fail + r.warn = nrsp')   \* and k performed
           /\ UNCHANGED final
-     ELSE /\ nsub = Len(items) /\ final' = 1 /\ UNCHANGED nrsp   \* exactly one final response, after everything
+     ELSE \* exactly one final response: after everything - or, when the handler signalled an error / the destination
+          \* could not be used, the documented failure status wherever the operation stood
+          /\ IF handler # <<>> THEN r.status = handler[Len(handler)] ELSE nsub = Len(items)
+          /\ final' = 1 /\ UNCHANGED nrsp
   /\ UNCHANGED <<svc, req, handler, items, nsub, ngot, over>>
 
 (* ---- the end of an operation ---- *)
@@ -110,7 +116,7 @@ End(sent, drained) ==
   /\ ~over /\ over' = TRUE
   /\ (svc \in {"echo", "store", "naction", "nevent", "find", "mwl", "move"}) => final = 1     \* every request is answered
   /\ (svc \in {"find", "mwl"}) => nrsp = Len(items)
-  /\ (svc = "move") => (nsub = Len(items))
+  /\ (svc = "move" /\ handler = <<>>) => (nsub = Len(items))
   /\ (svc = "get-scu") => (nsub = Len(items) /\ ngot = Len(Deliverable))
   /\ (svc \in {"find-scu", "mwl-scu"}) => final = 1
   /\ sent = drained                                    \* nothing the application sent is left unencoded
